@@ -281,6 +281,175 @@ theorem domsInternal_correct (entries nodes : List Name) (preds succs : Name →
       (fun t ht => (List.mem_filter.mp ht).1) h
     exact ⟨stable_sound entries nodes preds succs G d hfin n a hn, hfin.complete n hn a ha⟩
 
+
+/-! ## Totality: the fuel of the model always suffices
+
+`tot` adds up the sizes of all tables; an update shrinks one table, a non-update shortens the work
+list, so `|todo| + N · tot` decreases in every iteration (`N` = number of nodes, which also bounds
+the successors pushed by an update). The initial value is at most `N + N³`, below the fuel
+`N²(N+2) + 16` that `domsInternal` provides. Together with `C02.doms_assert_never_fires` the model
+returns a table on every graph that has an entry. -/
+
+def tot (nodes : List Name) (d : SetMap) : Nat := (nodes.map fun m => (d.get m).length).sum
+
+theorem tot_le_of_le (nodes : List Name) (d d' : SetMap)
+    (h : ∀ m, (d'.get m).length ≤ (d.get m).length) : tot nodes d' ≤ tot nodes d := by
+  unfold tot
+  induction nodes with
+  | nil => simp
+  | cons a t ih => simp only [List.map_cons, List.sum_cons]; have := h a; omega
+
+theorem tot_lt_of_lt (nodes : List Name) (d d' : SetMap) (n : Name) (hn : n ∈ nodes)
+    (h : ∀ m, (d'.get m).length ≤ (d.get m).length) (hlt : (d'.get n).length < (d.get n).length) :
+    tot nodes d' < tot nodes d := by
+  unfold tot
+  induction nodes with
+  | nil => simp at hn
+  | cons a t ih =>
+    simp only [List.map_cons, List.sum_cons]
+    rcases List.mem_cons.mp hn with e | e
+    · subst e
+      have := tot_le_of_le t d d' h
+      unfold tot at this
+      omega
+    · have := ih e
+      have := h a
+      omega
+
+theorem domsGo_fuel (entries nodes : List Name) (preds succs : Name → List Name)
+    (hs : ∀ n, ∀ s ∈ succs n, s ∈ nodes) (hsl : ∀ n, (succs n).length ≤ nodes.length) :
+    ∀ (f : Nat) (todo : List Name) (d : SetMap), (∀ t ∈ todo, t ∈ nodes) →
+      todo.length + nodes.length * tot nodes d < f →
+      domsGo entries preds succs f todo d ≠ .error ⟨"OutOfFuel", "_find_dominators_internal"⟩ := by
+  intro f
+  induction f with
+  | zero => intro todo d _ h; omega
+  | succ f ih =>
+    intro todo d htodo hphi
+    simp only [domsGo]
+    cases hl : todo.getLast? with
+    | none => simp
+    | some n =>
+      have hnmem : n ∈ todo := List.mem_of_getLast? hl
+      have hn : n ∈ nodes := htodo n hnmem
+      have hdrop : ∀ t ∈ todo.dropLast, t ∈ nodes := fun t ht => htodo t (List.dropLast_subset _ ht)
+      have hlen : todo.dropLast.length + 1 = todo.length := by
+        rw [List.length_dropLast]
+        have := List.length_pos_of_mem hnmem
+        omega
+      simp only
+      split
+      · exact ih _ d hdrop (by omega)
+      · split
+        · exact ih _ d hdrop (by omega)
+        · split
+          · simp [assertionAt]
+          · next hnlt =>
+            have hlt : (newDomsOf d preds n).length < (d.get n).length := by
+              simpa using hnlt
+            refine ih _ _ ?_ ?_
+            · intro t ht
+              rcases List.mem_append.mp ht with h1 | h1
+              · exact hdrop t h1
+              · exact hs n t h1
+            · have hle : ∀ m, ((d.set n (newDomsOf d preds n)).get m).length ≤ (d.get m).length := by
+                intro m; rw [get_set]; split
+                · next e => subst e; omega
+                · exact Nat.le_refl _
+              have hlt' : ((d.set n (newDomsOf d preds n)).get n).length < (d.get n).length := by
+                rw [get_set]; simpa using hlt
+              have htot := tot_lt_of_lt nodes d _ n hn hle hlt'
+              have hsn := hsl n
+              rw [List.length_append]
+              have hmul : nodes.length * tot nodes (d.set n (newDomsOf d preds n)) + nodes.length
+                  ≤ nodes.length * tot nodes d := by
+                have : tot nodes (d.set n (newDomsOf d preds n)) + 1 ≤ tot nodes d := htot
+                calc nodes.length * tot nodes (d.set n (newDomsOf d preds n)) + nodes.length
+                    = nodes.length * (tot nodes (d.set n (newDomsOf d preds n)) + 1) := by
+                      rw [Nat.mul_add, Nat.mul_one]
+                  _ ≤ nodes.length * tot nodes d := Nat.mul_le_mul_left _ this
+              omega
+
+/-- the only aborts of the loop are the two named ones -/
+theorem domsGo_errors (entries : List Name) (preds succs : Name → List Name) :
+    ∀ (f : Nat) (todo : List Name) (d : SetMap) (e : Abort),
+      domsGo entries preds succs f todo d = .error e →
+      e = ⟨"OutOfFuel", "_find_dominators_internal"⟩ ∨ e = assertionAt "_find_dominators_internal" := by
+  intro f
+  induction f with
+  | zero => intro todo d e h; simp [domsGo] at h; exact Or.inl h.symm
+  | succ f ih =>
+    intro todo d e h
+    simp only [domsGo] at h
+    cases hl : todo.getLast? with
+    | none => rw [hl] at h; cases h
+    | some n =>
+      rw [hl] at h
+      simp only at h
+      split at h
+      · exact ih _ _ _ h
+      · split at h
+        · exact ih _ _ _ h
+        · split at h
+          · simp only [Except.error.injEq] at h; exact Or.inr h.symm
+          · exact ih _ _ _ h
+
+theorem tot_doms0_le (entries nodes : List Name) :
+    tot nodes (nodes.map fun n => if mem entries n then (n, [n]) else (n, nodes))
+      ≤ nodes.length * nodes.length := by
+  have key : ∀ (l : List Name), (∀ m ∈ l, m ∈ nodes) →
+      (l.map fun m => (SetMap.get (nodes.map fun n => if mem entries n then (n, [n]) else (n, nodes)) m).length).sum
+        ≤ l.length * nodes.length := by
+    intro l
+    induction l with
+    | nil => intro _; simp
+    | cons a t ih =>
+      intro hl
+      simp only [List.map_cons, List.sum_cons, List.length_cons]
+      have ha : a ∈ nodes := hl a (by simp)
+      have h1 : (SetMap.get (nodes.map fun n => if mem entries n then (n, [n]) else (n, nodes)) a).length
+          ≤ nodes.length := by
+        rw [get_doms0 entries nodes nodes a ha]
+        split
+        · simp; exact List.length_pos_of_mem ha
+        · exact Nat.le_refl _
+      have := ih (fun m hm => hl m (by simp [hm]))
+      rw [Nat.add_mul, Nat.one_mul]
+      omega
+  have := key nodes (fun m hm => hm)
+  unfold tot
+  exact this
+
+/-- **Totality of `_find_dominators_internal` (model)**: with at least one entry, on every graph,
+    the model returns a table (and `domsInternal_correct` says which). -/
+theorem domsInternal_total (entries nodes : List Name) (preds succs : Name → List Name)
+    (G : GraphOK entries nodes preds succs) (hsl : ∀ n, (succs n).length ≤ nodes.length)
+    (hent : entries ≠ []) : ∃ d, domsInternal entries nodes preds succs = .ok d := by
+  cases hres : domsInternal entries nodes preds succs with
+  | ok d => exact ⟨d, rfl⟩
+  | error e =>
+    exfalso
+    have hassert := doms_assert_never_fires entries nodes preds succs G.predsIn G.succsIn
+    unfold domsInternal at hres hassert
+    have hne : entries.isEmpty = false := by cases entries <;> simp_all
+    simp only [hne, Bool.false_eq_true, if_false] at hres hassert
+    rcases domsGo_errors entries preds succs _ _ _ e hres with rfl | rfl
+    · refine domsGo_fuel entries nodes preds succs G.succsIn hsl _ _ _ ?_ ?_ hres
+      · intro t ht; exact (List.mem_filter.mp ht).1
+      · have h1 : (nodes.filter fun n => !mem entries n).length ≤ nodes.length := List.length_filter_le _ _
+        have h2 := tot_doms0_le entries nodes
+        have h3 : nodes.length * tot nodes (nodes.map fun n => if mem entries n then (n, [n]) else (n, nodes))
+            ≤ nodes.length * (nodes.length * nodes.length) := Nat.mul_le_mul_left _ h2
+        have h4 : nodes.length * nodes.length * (nodes.length + 2) =
+            nodes.length * (nodes.length * nodes.length) + 2 * (nodes.length * nodes.length) := by
+          rw [Nat.mul_add, Nat.mul_assoc]; omega
+        have h5 : nodes.length ≤ nodes.length * nodes.length ∨ nodes.length = 0 := by
+          cases hnl : nodes.length with
+          | zero => right; rfl
+          | succ k => left; exact Nat.le_mul_of_pos_right _ (by omega)
+        omega
+    · exact hassert hres
+
 /-! ### The two instances: `_doms` and `_post_doms` of a level -/
 
 theorem mem_inLevelSuccs (lvl : List Blk) (m x : Name) :
@@ -352,6 +521,40 @@ theorem postDoms_correct (H : Hier) (c : Name) (hnd : ((H.level c).map (·.name)
       Dominates (((H.level c).map (·.name)).filter fun n => (inLevelSuccs (H.level c) n).isEmpty)
         (inLevelPreds (H.level c)) a n :=
   domsInternal_correct _ _ _ _ (graphOK_bwd (H.level c) hnd) d h n a hn ha
+
+
+theorem inLevelSuccs_len (lvl : List Blk) (n : Name) :
+    (inLevelSuccs lvl n).length ≤ (lvl.map (·.name)).length :=
+  length_le_of_nodup_subset _ _ (nodup_dedup _) (fun s hs => inLevelSuccs_mem lvl n s hs)
+
+theorem inLevelPreds_len (lvl : List Blk) (hnd : (lvl.map (·.name)).Nodup) (n : Name) :
+    (inLevelPreds lvl n).length ≤ (lvl.map (·.name)).length := by
+  have hsub : ((lvl.filter fun b => (succIn lvl b.name).contains n).map (·.name)).Sublist (lvl.map (·.name)) :=
+    List.Sublist.map _ List.filter_sublist
+  exact length_le_of_nodup_subset _ _ (hnd.sublist hsub) (fun p hp => inLevelPreds_mem lvl n p hp)
+
+/-- **`_doms`, total correctness of the model**: on every level with distinct names that has a
+    block without in-level predecessor, the model returns a table, and the table is dominance. -/
+theorem doms_total (H : Hier) (c : Name) (hnd : ((H.level c).map (·.name)).Nodup)
+    (hent : (((H.level c).map (·.name)).filter fun n => (inLevelPreds (H.level c) n).isEmpty) ≠ []) :
+    ∃ d, doms H c = .ok d ∧ ∀ n ∈ (H.level c).map (·.name), ∀ a ∈ (H.level c).map (·.name),
+      (a ∈ d.get n ↔
+        Dominates (((H.level c).map (·.name)).filter fun n => (inLevelPreds (H.level c) n).isEmpty)
+          (inLevelSuccs (H.level c)) a n) := by
+  obtain ⟨d, hd⟩ := domsInternal_total _ _ _ _ (graphOK_fwd (H.level c) hnd)
+    (inLevelSuccs_len (H.level c)) hent
+  exact ⟨d, hd, fun n hn a ha => doms_correct H c hnd d hd n a hn ha⟩
+
+/-- **`_post_doms`, total correctness of the model.** -/
+theorem postDoms_total (H : Hier) (c : Name) (hnd : ((H.level c).map (·.name)).Nodup)
+    (hent : (((H.level c).map (·.name)).filter fun n => (inLevelSuccs (H.level c) n).isEmpty) ≠ []) :
+    ∃ d, postDoms H c = .ok d ∧ ∀ n ∈ (H.level c).map (·.name), ∀ a ∈ (H.level c).map (·.name),
+      (a ∈ d.get n ↔
+        Dominates (((H.level c).map (·.name)).filter fun n => (inLevelSuccs (H.level c) n).isEmpty)
+          (inLevelPreds (H.level c)) a n) := by
+  obtain ⟨d, hd⟩ := domsInternal_total _ _ _ _ (graphOK_bwd (H.level c) hnd)
+    (inLevelPreds_len (H.level c) hnd) hent
+  exact ⟨d, hd, fun n hn a ha => postDoms_correct H c hnd d hd n a hn ha⟩
 
 /-! Non-vacuity: the diamond `0→(1,2) 1→3 2→3` — the model returns, `0` dominates `3`, `1` does
 not (the path `0,2,3` avoids it). -/
